@@ -23,7 +23,7 @@
 (*   oscn  - number of closed OSC fields; oscraw - bytes stored so far      *)
 (*   u8    - Utf8 decoder state                                             *)
 (***************************************************************************)
-EXTENDS VtTable, Utf8, Sequences
+EXTENDS VtTable, Utf8, Sequences, TLC
 
 CONSTANTS MaxParams,   \* 32   total parameters + sub-parameters
           MaxInter,    \* 2
@@ -57,8 +57,15 @@ EvPrint(c)   == [k |-> "print", c |-> c]
 EvExec(b)    == [k |-> "exec", b |-> b]
 EvPut(b)     == [k |-> "put", b |-> b]
 EvUnhook     == [k |-> "unhook"]
-EvCsi(p, b)  == [k |-> "csi", p |-> Shown(p), i |-> p.inter, ign |-> p.ign, b |-> b]
-EvHook(p, b) == [k |-> "hook", p |-> Shown(p), i |-> p.inter, ign |-> p.ign, b |-> b]
+\* what the Params value itself reports: len() counts parameters and sub-parameters, is_empty(), and the
+\* Debug form "[a:b;c]" (-> params.rs)
+RECURSIVE JoinNums(_, _)
+JoinNums(ns, sep) == IF ns = <<>> THEN "" ELSE IF Len(ns) = 1 THEN ToString(ns[1]) ELSE ToString(ns[1]) \o sep \o JoinNums(Tail(ns), sep)
+RECURSIVE JoinGroups(_)
+JoinGroups(gs) == IF gs = <<>> THEN "" ELSE IF Len(gs) = 1 THEN JoinNums(gs[1], ":") ELSE JoinNums(gs[1], ":") \o ";" \o JoinGroups(Tail(gs))
+ParamsDebug(gs) == "[" \o JoinGroups(gs) \o "]"
+EvCsi(p, b)  == [k |-> "csi", p |-> Shown(p), i |-> p.inter, ign |-> p.ign, b |-> b, n |-> SumLen(Shown(p)), d |-> ParamsDebug(Shown(p))]
+EvHook(p, b) == [k |-> "hook", p |-> Shown(p), i |-> p.inter, ign |-> p.ign, b |-> b, n |-> SumLen(Shown(p)), d |-> ParamsDebug(Shown(p))]
 EvEsc(p, b)  == [k |-> "esc", i |-> p.inter, ign |-> p.ign, b |-> b]
 EvOsc(f, bell) == [k |-> "osc", f |-> f, bell |-> bell]
 EvPanic      == [k |-> "panic"]
